@@ -17,10 +17,13 @@
   Remarks.
   * `invalidate_all` is outside R: it only moves a watermark that makes lookups ignore
     older entries (treated with C07 on the sequential models).
-  * A lookup that finds an expired / invalidated entry returns `None` without touching the
-    map.  In R this is the behaviour "`daemon k` immediately before the get's map step":
-    expiry is monotone (clock and watermark only move forward), so such an entry can never
-    be observed again, which is exactly what a deletion says.
+  * Filtered lookups.  `get_with_hash` reads the entry in its map step and then returns
+    `None` if the entry is expired or older than the `invalidate_all` watermark, without
+    touching the map.  With time-to-idle such an entry can become visible again (a queued
+    read that is applied later moves `last_accessed` forward), so this is *not* a deletion.
+    R therefore lets a `get` respond `none` whatever its map step read: `respond g none` is
+    always allowed.  This makes R strictly more permissive than "respond with the value
+    read"; every theorem below holds for the larger set of executions.
 
   This file is import-free (core Lean) apart from `MiniMoka.Basic`; it is linked into the
   native driver.  It contains (1) the model, (2) the trace vocabulary used by the theorems
@@ -56,8 +59,9 @@ def Op.isWrite : Op → Bool
   | _ => true
 
 /-- Events of an execution.  `respond o r` carries the returned value `r` so that a trace
-is self-describing; `step` rejects a response whose value differs from the one fixed at the
-operation's map step (`none` for `ins`/`del`). -/
+is self-describing; `step` rejects a response whose value is neither the one fixed at the
+operation's map step (`none` for `ins`/`del`) nor `none` (see the remark on filtered
+lookups at the top of this file). -/
 inductive Ev where
   | invoke (t : Tid) (o : Oid) (op : Op)
   | mapStep (o : Oid)
@@ -121,7 +125,7 @@ def step (s : State) : Ev → Option State
     match AL.get? s.ops o with
     | none => none
     | some r =>
-      if r.phase = .stepped ∧ r.ret = x then
+      if r.phase = .stepped ∧ (x = r.ret ∨ x = none) then
         some { s with ops := AL.put s.ops o { r with phase := .done } }
       else none
   | .daemon k => some { s with map := remove s.map k }
@@ -137,7 +141,7 @@ def runFrom (s : State) : List Ev → Option State
 def run (evs : List Ev) : Option State := runFrom State.init evs
 
 /-- Well-formed executions: per operation `invoke < mapStep < respond`, each at most once,
-a thread has at most one operation in flight, responses carry the fixed value. -/
+a thread has at most one operation in flight, responses carry the fixed value (or `none`). -/
 def WF (evs : List Ev) : Prop := (run evs).isSome = true
 
 instance (evs : List Ev) : Decidable (WF evs) := by unfold WF; infer_instance
@@ -302,6 +306,52 @@ def wfHistory (h : List HOp) : Bool :=
 /-- The acceptor. -/
 def acceptR (h : List HOp) : Bool :=
   wfHistory h && (keysOf h).all (fun k => acceptKey (h.filter (fun a => a.op.key == k)))
+
+/-! ## 4. The history recorded from an execution (used to state `acceptR_complete`)
+
+Stamps are event positions: the global stamp counter of the recorder ticks once per
+invocation / response, and positions are a strictly monotone image of it; `acceptR` only
+compares stamps. -/
+
+/-- First position at which `p` yields a value, with that value. -/
+def firstPos {β : Type} (p : Ev → Option β) : List Ev → Option (Nat × β)
+  | [] => none
+  | e :: es =>
+    match p e with
+    | some b => some (0, b)
+    | none => (firstPos p es).map (fun x => (x.1 + 1, x.2))
+
+/-- Position, thread and operation of the invocation of `o`. -/
+def invOf (evs : List Ev) (o : Oid) : Option (Nat × (Tid × Op)) :=
+  firstPos (fun e => match e with
+    | .invoke t o' op => if o' = o then some (t, op) else none
+    | _ => none) evs
+
+/-- Position and value of the response of `o`. -/
+def resOf (evs : List Ev) (o : Oid) : Option (Nat × Option Val) :=
+  firstPos (fun e => match e with
+    | .respond o' r => if o' = o then some r else none
+    | _ => none) evs
+
+/-- The record of the completed operation `o`. -/
+def hopOf (evs : List Ev) (o : Oid) : Option HOp :=
+  match invOf evs o, resOf evs o with
+  | some (q, t, op), some (a, r) => some ⟨t, q, a, op, r⟩
+  | _, _ => none
+
+/-- Instances in the order of their responses / of their map steps. -/
+def respOids : List Ev → List Oid
+  | [] => []
+  | .respond o _ :: es => o :: respOids es
+  | _ :: es => respOids es
+
+def stepOids : List Ev → List Oid
+  | [] => []
+  | .mapStep o :: es => o :: stepOids es
+  | _ :: es => stepOids es
+
+/-- The recorded history of an execution: its completed operations, in response order. -/
+def historyOf (evs : List Ev) : List HOp := (respOids evs).filterMap (hopOf evs)
 
 end ConcR
 end MiniMoka
